@@ -25,11 +25,11 @@ def gen_lines(thorough):
                 for t in range(cc, cc + na):       # the failing construction is one of the copy / move constructions of the second object
                     j.append('j %s %d 2 %d 1 %d %s' % (form, 64 + na * 24, na, t, post))
     # a joint_array failing inside the object's constructor gives its joint memory back (allocator usable): form x length x failing index
-    for form in ('size', 'value', 'range', 'ilist'):
+    for form in ('size', 'value', 'range', 'ilist', 'copy', 'move'):
         for n in ([3] if form == 'ilist' else range(1, min(maxn, 16) + 1)):
             cc = 2 * n if form == 'ilist' else n
             for t in range(0, cc):
-                j.append('r %s %d 0 %d 0 %d none' % (form, 64 + n * 48, n, t))   # room for the member array (ilist form: three elements) and the retried one
+                j.append('r %s %d 0 %d 0 %d none' % (form, 64 + n * 72, n, t))   # room for the member array (ilist form: three elements), the source of a copy / move and the retried one
     return u, j
 
 
